@@ -84,8 +84,8 @@ inductive Item where
   | struct (attrs : List Attr) (ident : Str) (generics : List GenericParam) (fields : Fields)
   | enum (attrs : List Attr) (ident : Str) (generics : List GenericParam) (variants : List Variant)
   | alias (attrs : List Attr) (ident : Str) (generics : List GenericParam) (ty : SynType)
-  | const (attrs : List Attr) (ident : Str) (ty : SynType) (lits : List Lit)
-      -- `lits`: the literal sub-expressions of the initialiser in `syn::visit` order
+  | const (attrs : List Attr) (ident : Str) (ty : SynType) (init : Option Lit)
+      -- `init`: `some l` when the initialiser is exactly the literal `l`, `none` for any other expression
   | use (tree : UseTree)
   | mod (attrs : List Attr) (ident : Str) (items : List Item)
   | other (paths : List (List Str)) (items : List Item)
